@@ -556,6 +556,8 @@ def run(pid, tier, replay=None):
         rc = handover.stage(chk, quick, rng, pid, cfg, keys, build_universe)
         if rc:
             return rc
+        if pid == "C09":
+            handover.stage_adversarial(chk, quick, rng, pid, cfg, keys, build_universe, lambda w_, b_: b_[7], "reward_above_subsidy_plus_fees")
     if pid == "C12":
         # ---- the miner's thread walks the peer book (get_active_peers) while the network thread changes it (ActivePeers): design level,
         #      then the whole found-block handling stopped before every line it executes in manager.py while a peer connects / disconnects
